@@ -219,6 +219,7 @@ def validate_trace(pid, name, trace_path, module="Trace_Ledger", shards=8, timeo
                 if seglines is None:
                     seglines = open(p).read().splitlines()
                 r["segment"] = json.loads(seglines[r["line"] - 1])
+                r["module"] = module
                 (fails if tag == "FAIL" else ambigs).append(r)
             elif '"@@SUMMARY ' in line:
                 summ = _decode_tlc_string(line, "SUMMARY")
